@@ -50,6 +50,10 @@ pub struct Case {
     /// (train, test) index lists whose train part need NOT be the complement of the test part
     #[serde(default)]
     pub custom_folds: Option<Vec<(Vec<usize>, Vec<usize>)>>,
+    /// how the KFold value is constructed: 0 = struct literal, 1 = default().with_n_splits().with_shuffle(),
+    /// 2 = default().with_shuffle().with_n_splits() (the public builder API, both call orders)
+    #[serde(default)]
+    pub ctor: u8,
 }
 
 pub struct C16;
@@ -290,6 +294,14 @@ fn fit_party<T: RealNumber>(
     }
 }
 
+fn make_kfold(k: usize, shuffle: bool, ctor: u8) -> KFold {
+    match ctor % 3 {
+        0 => KFold { n_splits: k, shuffle },
+        1 => KFold::default().with_n_splits(k).with_shuffle(shuffle),
+        _ => KFold::default().with_shuffle(shuffle).with_n_splits(k),
+    }
+}
+
 fn clip(v: &[usize]) -> Vec<usize> {
     v.iter().take(12).copied().collect()
 }
@@ -416,6 +428,7 @@ fn forced_small() -> &'static Small {
                             kind: "forced-permutation".into(),
                             f32m: pi % 3 == 1,
                             custom_folds: None,
+                            ctor: (pi % 3) as u8,
                         });
                     }
                 }
@@ -434,6 +447,7 @@ fn forced_small() -> &'static Small {
                         kind: "forced-permutation".into(),
                         f32m: false,
                         custom_folds: None,
+                        ctor: 0,
                     });
                 }
             }
@@ -498,7 +512,7 @@ impl C16 {
 
         match &case.op {
             Op::KFold => {
-                let cv = KFold { n_splits: k, shuffle: case.shuffle };
+                let cv = make_kfold(k, case.shuffle, case.ctor);
                 let res = guarded(|| {
                     let ns = cv.n_splits();
                     let pairs: Vec<(Vec<usize>, Vec<usize>)> = cv.split(&x).collect();
@@ -570,7 +584,7 @@ impl C16 {
                 let hist = Rc::new(RefCell::new(Hist::default()));
                 let cvk = match &case.custom_folds {
                     Some(f) => Splitter::Custom(f.clone()),
-                    None => Splitter::Real(KFold { n_splits: k, shuffle: case.shuffle }),
+                    None => Splitter::Real(make_kfold(k, case.shuffle, case.ctor)),
                 };
                 let k = case.custom_folds.as_ref().map(|f| f.len()).unwrap_or(k);
                 enum Out {
@@ -843,6 +857,8 @@ impl Property for C16 {
                     note: "shuffle off: every 2<=k<=n<=64 x {KFold, cross_val_predict, cross_validate}; no draw is made (schedule-free)" },
             Batch { name: "split-noshuffle", count: 64 * TEST_SIZES.len() as u64 * 2, simulated: false, exhaustive: true,
                     note: "train_test_split, shuffle off: n 1..64 x 16 test sizes x {f64,f32} (schedule-free)" },
+            Batch { name: "split-large", count: if q { 300 } else { 6_000 }, simulated: true, exhaustive: false,
+                    note: "train_test_split on 1000..20000 rows (the property bounds n only for k-fold), shuffled and unshuffled" },
             Batch { name: "forced-perm-exhaustive", count: forced_small().cases.len() as u64, simulated: true, exhaustive: true,
                     note: "every permutation of n<=6 rows forced through the RNG seam x every k x every operation" },
             Batch { name: "prng-shuffle", count: if q { 200_000 } else { 6_000_000 }, simulated: true, exhaustive: false,
@@ -866,7 +882,7 @@ impl Property for C16 {
             "noshuffle-exhaustive" => {
                 let (n, k) = noshuffle_pairs()[(index / 3) as usize];
                 let op = [Op::KFold, Op::CrossValPredict, Op::CrossValidate][(index % 3) as usize].clone();
-                Case { op, n, k, p: 1 + (index % 3) as usize, shuffle: false, fail_at: None, tape: TapeSpec::prng(tape_seed), kind: "noshuffle".into(), f32m: (n + k) % 4 == 0, custom_folds: None }
+                Case { op, n, k, p: 1 + (index % 3) as usize, shuffle: false, fail_at: None, tape: TapeSpec::prng(tape_seed), kind: "noshuffle".into(), f32m: (n + k) % 4 == 0, custom_folds: None, ctor: ((n * 3 + k) % 3) as u8 }
             }
             "split-noshuffle" => {
                 let f32m = index % 2 == 1;
@@ -877,9 +893,16 @@ impl Property for C16 {
                 while ((n as f32) * ts) as usize == 0 {
                     n += 7;
                 }
-                Case { op: Op::Split { test_size: ts, f32m }, n, k: 2, p: 1 + (index % 4) as usize, shuffle: false, fail_at: None, tape: TapeSpec::prng(tape_seed), kind: "noshuffle".into(), f32m: false, custom_folds: None }
+                Case { op: Op::Split { test_size: ts, f32m }, n, k: 2, p: 1 + (index % 4) as usize, shuffle: false, fail_at: None, tape: TapeSpec::prng(tape_seed), kind: "noshuffle".into(), f32m: false, custom_folds: None, ctor: 0 }
             }
             "forced-perm-exhaustive" => forced_small().cases[index as usize].clone(),
+            "split-large" => {
+                // train_test_split has no upper bound on n in the property: a few thousand rows, shuffled and not
+                let n = r.usize_in(1000, 20000);
+                let ts = if r.chance(0.5) { *r.pick(&TEST_SIZES) } else { r.range(0.0005, 1.0) as f32 };
+                let ts = if ((n as f32) * ts) as usize == 0 { 0.5 } else { ts };
+                Case { op: Op::Split { test_size: ts, f32m: false }, n, k: 2, p: r.usize_in(1, 3), shuffle: r.chance(0.6), fail_at: None, tape: TapeSpec::prng(tape_seed), kind: "prng".into(), f32m: false, custom_folds: None, ctor: 0 }
+            }
             _ => {
                 let hi = if big { 300 } else { 64 };
                 let n = r.usize_in(2, hi);
@@ -902,7 +925,7 @@ impl Property for C16 {
                     5..=7 => Op::CrossValPredict,
                     _ => Op::CrossValidate,
                 };
-                let mut c = Case { op, n, k, p, shuffle: true, fail_at: None, tape: TapeSpec::prng(tape_seed), kind: "prng".into(), f32m: r.chance(0.25), custom_folds: None };
+                let mut c = Case { op, n, k, p, shuffle: true, fail_at: None, tape: TapeSpec::prng(tape_seed), kind: "prng".into(), f32m: r.chance(0.25), custom_folds: None, ctor: r.below(3) as u8 };
                 match batch {
                     "prng-shuffle" => {}
                     "extreme-shuffle" => {
@@ -1086,7 +1109,7 @@ impl Property for C16 {
     fn sample(&self, case: &Case, report: &Report) -> Value {
         json!({
             "op": format!("{:?}", case.op), "n": case.n, "k": case.k, "p": case.p, "shuffle": case.shuffle,
-            "fail_at": case.fail_at, "kind": case.kind, "f32": case.f32m, "splitter_party_folds": case.custom_folds,
+            "fail_at": case.fail_at, "kind": case.kind, "f32": case.f32m, "kfold_constructed_by": (["struct literal", "default().with_n_splits().with_shuffle()", "default().with_shuffle().with_n_splits()"][(case.ctor % 3) as usize]), "splitter_party_folds": case.custom_folds,
             "tape_prefix_words": case.tape.prefix.len(), "tape_seed": case.tape.seed, "extreme_per_mille": case.tape.extreme_pm,
             "words_served": report.tape.len(),
             "first_words_served": report.tape.iter().take(8).collect::<Vec<_>>(),
